@@ -907,6 +907,19 @@ func (st *Store) fpInt(t *Term) (*Term, int, bool) {
 		if b <= 54 {
 			return st.SExt(t.A[0], 64), b, true
 		}
+	case OIte:
+		if ia, ba, ok := st.fpInt(t.A[1]); ok {
+			if ib, bb, ok := st.fpInt(t.A[2]); ok {
+				if bb > ba {
+					ba = bb
+				}
+				r := st.Ite(t.A[0], ia, ib)
+				if r.Op != OConst {
+					st.intBits[r.ID] = ba
+				}
+				return r, ba, true
+			}
+		}
 	case OFFromU:
 		a := t.A[0]
 		if a.S.W <= 53 {
